@@ -495,8 +495,22 @@ def _corr_cases(rng, tier):
         N = rng.choice([1, 2, 2, 3, 3, 4])
         stream = "int" if rng.random() < 0.7 else "float"
         shape = [1 if rng.random() < 0.15 else rng.randint(2, 4) for _ in range(N)]
-        op = rng.choice(["dot", "normsq", "sumkeep", "sum"])
+        op = rng.choice(["dot", "normsq", "sumkeep", "sum", "mean", "meankeep", "mean_marg", "mean_marg", "var", "var_marg"])
         c = {"kind": "corr", "op": op, "t": gen_tensor(rng, shape, stream=stream).to_json(), "stream": stream, "dd": "float64"}
+        if op in ("mean", "meankeep", "mean_marg"):
+            bits = [rng.randint(0, 1) for _ in range(N)]
+            if not any(bits):
+                bits[rng.randrange(N)] = 1
+            if rng.random() < 0.3:
+                bits = [1] * N
+            c["bits"] = bits
+        if op in ("mean_marg", "var_marg"):
+            listed = [i for i in range(N) if (op == "var_marg" or c["bits"][i])]
+            margs = [[float(rng.randint(1, 4)) if stream == "int" else rng.uniform(0.2, 2.0) for _ in range(shape[i])] for i in listed]
+            if op == "mean_marg" and len(margs) > 1 and rng.random() < 0.15:
+                margs = margs[:-1]                 # fewer vectors than listed modes: zip() truncates, the rest is summed (model: '-')
+            c["margs"] = margs
+            c["keep"] = rng.random() < 0.4
         if op == "dot":
             c["u"] = gen_tensor(rng, shape, stream=stream).to_json()
         if op in ("sumkeep", "sum"):
@@ -539,18 +553,66 @@ def run_corr(ctx, case, J):
         if (exact and mv != r[1]) or not close(np.asarray(mv), np.asarray(r[1]), 1e-9)[0]:
             ctx.corr("%s: implementation %r differs from model %r" % (op, r[1], mv), case)
         return
+    if op in ("var", "var_marg"):
+        from core import q
+        if op == "var":
+            r = safe(lambda: float(tn.var(t.to_tn())))
+            toks = drv.call("var " + t.ser())
+            spec = float(np.var(x))
+        else:
+            ms = [np.array(m) for m in case["margs"]]
+            r = safe(lambda: float(tn.var(t.to_tn(), marginals=[torch.tensor(m) for m in ms])))
+            toks = drv.call("var_marg %d %s %s" % (len(ms), " ".join("%d %s" % (len(m), " ".join(q(v) for v in m)) for m in ms), t.ser()))
+            W = np.ones_like(x)
+            for i, m in enumerate(ms):
+                W = W * (m / m.sum()).reshape([-1 if k == i else 1 for k in range(t.N)])
+            mu = float(np.sum(x * W)); spec = float(np.sum((x - mu) ** 2 * W))
+        if r[0] == "err":
+            ctx.oracle("%s raised %s: %s" % (op, r[1], r[2]), case); return
+        if toks[0] != "ok" or toks[1] != "S":
+            ctx.corr("model %s answered %s" % (op, toks[:3]), case); return
+        mv = float(unq(toks[2].split("~")[0]))
+        sc = max(1.0, float(np.max(np.abs(x))) ** 2)
+        if abs(mv - spec) > 1e-9 * sc:
+            ctx.spec("model %s %r differs from the dense value %r" % (op, mv, spec), case)
+        if abs(mv - r[1]) > 1e-9 * sc:
+            ctx.corr("%s: implementation %r differs from model %r" % (op, r[1], mv), case)
+        return
     bits = case["bits"]
     dims = [i for i, b in enumerate(bits) if b]
     keep = op == "sumkeep"
-    r = safe(lambda: tn.sum(t.to_tn(), dim=dims, keepdim=keep))
-    if r[0] == "err":
-        ctx.oracle("sum(dim=%s, keepdim=%s) raised %s: %s" % (dims, keep, r[1], r[2]), case); return
-    toks = drv.call("%s %d %s %s" % (op, len(bits), " ".join(map(str, bits)), t.ser()))
-    exp = x.sum(axis=tuple(dims), keepdims=keep)
+    if op in ("mean", "meankeep", "mean_marg"):
+        from core import q
+        exact = False
+        keep = op == "meankeep" or (op == "mean_marg" and case["keep"])
+        if op == "mean_marg":
+            ms = [np.array(m) for m in case["margs"]]
+            r = safe(lambda: tn.mean(t.to_tn(), dim=dims, marginals=[torch.tensor(m) for m in ms], keepdim=keep))
+            per = {dims[k]: ms[k] for k in range(len(ms))}
+            toks = drv.call("mean_marg %d %s %d %d %s %s" % (len(bits), " ".join(map(str, bits)), 1 if keep else 0, t.N, " ".join(
+                ("%d %s" % (len(per[i]), " ".join(q(v) for v in per[i]))) if i in per else "-" for i in range(t.N)), t.ser()))
+            W = np.ones_like(x)
+            for i, m in per.items():
+                W = W * (m / m.sum()).reshape([-1 if k == i else 1 for k in range(t.N)])
+            exp = (x * W).sum(axis=tuple(dims), keepdims=keep)
+        else:
+            r = safe(lambda: tn.mean(t.to_tn(), dim=dims, keepdim=keep))
+            toks = drv.call("%s %d %s %s" % (op, len(bits), " ".join(map(str, bits)), t.ser()))
+            exp = x.mean(axis=tuple(dims), keepdims=keep)
+        if r[0] == "err":
+            ctx.oracle("%s(dim=%s) raised %s: %s" % (op, dims, r[1], r[2]), case); return
+        if isinstance(r[1], torch.Tensor):
+            r = ("ok", float(r[1]))
+    else:
+        r = safe(lambda: tn.sum(t.to_tn(), dim=dims, keepdim=keep))
+        if r[0] == "err":
+            ctx.oracle("sum(dim=%s, keepdim=%s) raised %s: %s" % (dims, keep, r[1], r[2]), case); return
+        toks = drv.call("%s %d %s %s" % (op, len(bits), " ".join(map(str, bits)), t.ser()))
+        exp = x.sum(axis=tuple(dims), keepdims=keep)
     if toks[0] != "ok":
         ctx.corr("model %s failed: %s" % (op, " ".join(toks[:4])), case); return
     if toks[1] == "S":
-        mv = float(unq(toks[2]))
+        mv = float(unq(toks[2].split("~")[0]))
         if isinstance(r[1], tn.Tensor):
             ctx.corr("sum: model returns a scalar, implementation a tensor", case); return
         if not close(np.asarray(mv), np.asarray(float(exp)), 1e-9)[0]:
